@@ -7,14 +7,22 @@ Local Open Scope rs_scope.
 Inductive unop := U_neg | U_recip | U_sqrt | U_cbrt | U_exp | U_exp2 | U_exp_m1 | U_ln | U_log2 | U_log10 | U_ln_1p | U_sin | U_cos | U_tan
   | U_asin | U_acos | U_atan | U_sinh | U_cosh | U_tanh | U_asinh | U_acosh | U_atanh.
 Inductive binop := B_add | B_sub | B_mul | B_div.
+(* scalar constants: an integer (cast as the harness does), a numeric literal of the source, a named constant of FloatConst, F::one(), a product *)
+Inductive cst := CZ (z : Z) | CL (l : flit) | CK (k : fconst) | CO | CM (a b : cst).
+Coercion CZ : Z >-> cst.
+Fixpoint cval {F : Type} {flF : FL F} (c : cst) : F :=
+  match c with CZ z => castZ z | CL l => lit l | CK k => fl_const k | CO => (one : F) | CM a b => cval a * cval b end.
+Arguments cval : simpl never.
 Inductive prog :=
   | PVar (i : nat)                         (* input variable, or let-bound value (de Bruijn level in the environment) *)
-  | PConst (c : Z)                         (* integer constant lifted from F *)
+  | PConst (c : cst)                       (* constant lifted from F *)
   | PUn (u : unop) (a : prog)
   | PBin (b : binop) (a c : prog)
-  | PScal (b : binop) (a : prog) (c : Z)   (* scalar right operand *)
+  | PScal (b : binop) (a : prog) (c : cst) (* scalar right operand *)
   | PPowi (a : prog) (n : Z)
   | PLet (a body : prog).                  (* body sees a as the next environment entry *)
+Arguments PConst c%Z.
+Arguments PScal b a c%Z.
 
 Section Eval.
   Context {F T : Type} {dn : DN F T}.
@@ -31,10 +39,10 @@ Section Eval.
   Fixpoint eval (env : list T) (p : prog) : T :=
     match p with
     | PVar i => nth i env (zero : T)
-    | PConst c => ofF (castZ c : F)
+    | PConst c => ofF (cval c : F)
     | PUn u a => eval_un u (eval env a)
     | PBin b a c => eval_bin b (eval env a) (eval env c)
-    | PScal b a c => eval_scal b (eval env a) (castZ c : F)
+    | PScal b a c => eval_scal b (eval env a) (cval c : F)
     | PPowi a n => m_powi (eval env a) n
     | PLet a body => eval (env ++ [eval env a]) body
     end.
